@@ -206,11 +206,30 @@ def r04b(model: Model, rr: RuleResult):
     from ..dataflow import resolved as _r4b
     uni = [st for st in ast.walk(e.node) if isinstance(st, ast.Assign) and len(st.targets) == 1 and isinstance(st.targets[0], ast.Attribute) and st.targets[0].attr == "unicode"]
     okb = None
-    for st in uni:
-        made = _r4b(ecfg, ecfg.node_for(st), st.targets[0].value)  # the glyph whose unicode is set, through temporaries
+    # the glyph may be made in a helper the reference tree does not have (`_add_blank_glyph(ufo, cp)`): read the helper in its own terms
+    from .. import report as _rep4
+    sites = [(e, ecfg, st) for st in uni]
+    for c_ in calls_in(e, nested=True):
+        callee = model.resolve_call(e, c_)
+        if callee is not None and not isinstance(callee.node, ast.Lambda) and _rep4.CURRENT_DRIFT.get(callee.fq, 0) is None:
+            hcfg = cfg_of(callee)
+            sites += [(callee, hcfg, st) for st in ast.walk(callee.node) if isinstance(st, ast.Assign) and len(st.targets) == 1
+                      and isinstance(st.targets[0], ast.Attribute) and st.targets[0].attr == "unicode"]
+    for f_, c4, st in sites:
+        made = _r4b(c4, c4.node_for(st), st.targets[0].value)  # the glyph whose unicode is set, through temporaries
         if isinstance(made, ast.Call) and callee_tail(made) == "newGlyph" and len(made.args) == 1 and isinstance(made.args[0], ast.Call) \
                 and callee_tail(made.args[0]) == "glyph_name" and len(made.args[0].args) == 1:
             okb = norm(made.args[0].args[0]) == norm(st.value)
+        elif isinstance(made, ast.Call) and callee_tail(made) == "newGlyph" and len(made.args) == 1 and isinstance(made.args[0], ast.Name) and isinstance(st.value, ast.Name):
+            # name and codepoint are the two halves of one item of {cp: glyph_name(cp) for cp in ...}
+            for lp in [x for x in ast.walk(f_.node) if isinstance(x, ast.For) and any(y is st for y in ast.walk(x))]:
+                if isinstance(lp.target, ast.Tuple) and len(lp.target.elts) == 2 and isinstance(lp.iter, ast.Call) and callee_tail(lp.iter) == "items" and not lp.iter.args \
+                        and [norm(x) for x in lp.target.elts] == [st.value.id, made.args[0].id]:
+                    from ..dataflow import deref as _d4c
+                    d_ = _d4c(c4, c4.node_for(lp), lp.iter.func.value)
+                    if isinstance(d_, ast.DictComp) and len(d_.generators) == 1 and isinstance(d_.value, ast.Call) and callee_tail(d_.value) == "glyph_name" \
+                            and len(d_.value.args) == 1 and norm(d_.value.args[0]) == norm(d_.key) == norm(d_.generators[0].target):
+                        okb = True
     if okb is None:
         # name and codepoint taken from two sequences walked in parallel: positive when each was ordered by its own key (names as strings, codepoints as numbers)
         from ..dataflow import deref as _d4b
